@@ -133,7 +133,8 @@ def check(run):
         else: stats['semantic_faults'] += 1
         # the rule that CSP and IO synchronisations are not mixed relates two labels of the model: either may be blamed
         stray = [e for e in errs + errors(rr['r' + cid]['cmds']) if e[1] != S['xpath'] and e[0] != '$CSP_and_IO_synchronisations_cannot_be_mixed']
-        leakish = bool(re.search(r'\b(forall|exists|sum)\b', bad))
+        # the known leak: a quantifier whose body does not parse (the mid-rule action has pushed the binder's frame, the rule never completes)
+        leakish = bool(re.search(r'\b(forall|exists|sum)\b', bad)) and any(e[0].startswith('$syntax_error') for e in errs)
         if stray:
             run.fail('a fault in the %s at %s is reported for another block: %s at %s' % (S['what'], S['xpath'], stray[0][0], stray[0][1]),
                      dict(xml=x, faulted_label=S['xpath'], text=bad, stray=stray[:3]), shape='frame-leak' if leakish else 'stray-diagnostic:' + S['what'])
